@@ -36,7 +36,12 @@ def parseSboms (s : String) : Option (List (Nat × Bytes)) :=
 def parseFiles (s : String) : Option (List (Bytes × Node)) :=
   allSome ((splitList s "+").map (fun x => match x.splitOn "=" with
     | [k, h] => match hexDecode k with
-      | some k => if h = "*" then some (k, Node.dir []) else (hexDecode h).map (fun b => (k, Node.file b))
+      | some k =>
+        if h = "*" then some (k, Node.dir [])
+        -- symlinks the callback creates: to a directory, to a file, to nothing
+        else if h = "@D" then some (k, Node.link .toDir) else if h = "@F" then some (k, Node.link .toFile)
+        else if h = "@x" then some (k, Node.link .dangling)
+        else (hexDecode h).map (fun b => (k, Node.file b))
       | none => none
     | _ => none))
 
@@ -118,11 +123,27 @@ def parseTCall (s : String) : Option TCall :=
   | 'M' :: r => (parseOptMeta (String.ofList r)).map TCall.migrate
   | _ => none
 
+/-- C01's snapshot rendering with one addition: a symlink line says what the link leads to (`L path D|F|x`) -/
+partial def snapLinesK (pre : List Bytes) (d : Dir) : List String :=
+  d.foldl (fun acc (kv : Bytes × Node) =>
+    let p := pre ++ [kv.1]
+    match kv.2 with
+    | .file b => acc ++ ["F " ++ pathStr p ++ " " ++ hexEncode b]
+    | .dir es => acc ++ ["D " ++ pathStr p] ++ snapLinesK p es
+    | .link k => acc ++ ["L " ++ pathStr p ++ " " ++ (match k with | .toDir => "D" | .toFile => "F" | .dangling => "x")]) []
+
+def renderStoreK (names : List Bytes) (s : Store) : String :=
+  joinWith "&" ((sortBy bytesLt names).filterMap (fun n =>
+    let l := s.get n
+    if l.dir.isNone && l.toml.isNone && l.sboms.isEmpty then none
+    else some (hexEncode n ++ ":" ++ (match l.dir with | none => "~" | some d => joinWith "," (sortBy strLt (snapLinesK [] d))) ++
+      ":" ++ renderToml l.toml ++ ":" ++ renderSboms l.sboms)))
+
 def runModel (names : List Bytes) (ops : List TOp) : List String :=
   (ops.foldl (fun (acc : Store × List String) op =>
     let r := tStep acc.1 op
     (r.1, acc.2 ++ [renderObs (r.2.1.observe probes) ++ "#" ++ joinWith "," (r.2.2.map renderTCall) ++ "#" ++
-      renderStore names r.1]))
+      renderStoreK names r.1]))
     (([] : Store), [])).2
 
 /-- first step that violates the property; a step that fails *only* by the known deviation (keep drops metadata keys
